@@ -1,3 +1,6 @@
+#[cfg(frozenlib_derive_ex_verif)]
+use crate::verif_hooks::HashSet;
+#[cfg(not(frozenlib_derive_ex_verif))]
 use std::collections::HashSet;
 use syn::{
     ext::IdentExt,
